@@ -71,6 +71,8 @@ def run(chk):
                        '2.1 SDO, plain dictionary) all states reachable by <= 2 adds x 11 selectors (incl. string-prefix siblings created / created_by_ref, list indices, properties holding "" and false, '
                        'embedded-object properties) x 3 markings (2 marking refs + 1 language) x inherited/descendants flags: the laws of the statement against a set model; '
                        'multi-selector adds with partial overlap; commutativity; results are new versions with non-marking content unchanged.')
+    c = K.granular_add_contract(); chk.prove(c); chk.canary(c)          # granular add: view(result) == view(object) | {(kind(m), m, s)}, against the contracts of its callees
+    for name, claim in K.add_law_lemmas(): chk.lemma(name, claim)      # idempotent, order-independent, reported after adding: from that contract alone
     c = K.compress_markings_contract(); chk.prove(c); chk.canary(c)          # ... and back: one entry per marking, the same triples (kinds told apart by utils.is_marking)
     c = K.expand_markings_contract(); chk.prove(c); chk.canary(c)          # the normal form every granular operation works on: exactly the (kind, marking, selector) triples of the input
     # every marking result is produced by new_version: its contract (C05) is an obligation of this property too ("every result is a valid new version")
